@@ -93,6 +93,8 @@ pub struct Shared {
     pub child_exec_attempts: AtomicUsize,
     pub child_panics: AtomicUsize,
     pub child_escapes: AtomicUsize,
+    /// forked copies of this process that ran its exit-time handlers (left through exit() instead of _exit())
+    pub child_exit_handlers: AtomicUsize,
     /// system calls the library made through syscall() that the monitors do not model (a blind spot, counted)
     pub unmodelled_raw_syscalls: AtomicUsize,
     pub plan_fired: [AtomicU32; 32],
@@ -132,7 +134,39 @@ pub fn init() {
         assert!(p != libc::MAP_FAILED, "mmap of shared log failed");
         SHARED.store(p as *mut Shared, SeqCst);
         MAIN_PID.store(crate::rsys!(libc::SYS_getpid) as i32, SeqCst);
+        libc::atexit(at_exit);
     }
+}
+
+/// The exit handler of this process blocks when it runs in a forked copy (like a handler that needs a lock which some
+/// other thread held at the moment of the fork: that thread does not exist in the copy)
+pub static EXIT_HANDLER_BLOCKS: AtomicBool = AtomicBool::new(false);
+
+/// Like many programs, this one has exit-time work registered with atexit().  It belongs to the process that
+/// registered it: when it runs anywhere else, a forked copy of this process has left through exit() and is executing
+/// the caller's code while it holds a copy of every descriptor of the caller.
+extern "C" fn at_exit() {
+    let pid = unsafe { crate::rsys!(libc::SYS_getpid) as i32 };
+    if pid == MAIN_PID.load(SeqCst) {
+        return;
+    }
+    if let Some(s) = shared() {
+        s.child_exit_handlers.fetch_add(1, SeqCst);
+    }
+    if EXIT_HANDLER_BLOCKS.load(SeqCst) {
+        unsafe {
+            libc::prctl(libc::PR_SET_NAME, b"vatexit\0".as_ptr());
+            loop {
+                crate::rsys!(libc::SYS_pause);
+            }
+        }
+    }
+    unsafe { crate::rsys!(libc::SYS_exit_group, 103) };
+}
+
+/// Number of forked copies that ran the exit handler in this case.
+pub fn child_exit_handlers() -> usize {
+    shared().map(|s| s.child_exit_handlers.load(SeqCst)).unwrap_or(0)
 }
 
 #[inline]
@@ -219,6 +253,7 @@ pub fn reset() {
         s.child_exec_attempts.store(0, SeqCst);
         s.child_panics.store(0, SeqCst);
         s.child_escapes.store(0, SeqCst);
+        s.child_exit_handlers.store(0, SeqCst);
         s.unmodelled_raw_syscalls.store(0, SeqCst);
         s.bt_n.store(0, SeqCst);
         for f in s.plan_fired.iter() {
